@@ -352,6 +352,7 @@ class Frame:
         self.continues: List[G] = []
         self.loop_stack: List[ast.AST] = []
         self.havoc_depth = 0
+        self.cur_guard: G = TRUE
 
     # -- statements ----------------------------------------------------------
     def block(self, stmts, env: Dict[str, Any], guard: G) -> G:
@@ -363,6 +364,7 @@ class Frame:
         return live
 
     def stmt(self, st, env, guard: G) -> G:
+        self.cur_guard = guard
         if isinstance(st, ast.Assign):
             v = self.expr(st.value, env)
             for t in st.targets:
@@ -723,7 +725,7 @@ class Frame:
                 same = ka == kb
                 return (TRUE if same else FALSE) if pos else (FALSE if same else TRUE)
             k = tuple(sorted([repr(ka), repr(kb)]))
-            g = g_atom(("same", k))
+            g = g_atom(("same", k), f"{_disp(a)} is {_disp(b)}")
             return g if pos else g_not(g)
         if isinstance(a, Vec) or isinstance(b, Vec):
             if opname in ("==", "!=") and isinstance(a, Vec) and isinstance(b, Vec) and len(a.items) == len(b.items):
@@ -865,7 +867,13 @@ class Frame:
     # -- calls ---------------------------------------------------------------
     def call(self, e: ast.Call, env, guard: G, stmt):
         from .npmodel import dispatch_call
-        return dispatch_call(self, e, env, guard, stmt)
+        return dispatch_call(self, e, env, self.cur_guard, stmt)
+
+
+def _disp(v) -> str:
+    if isinstance(v, Obj):
+        return str(v.val) if v.val is not None else v.tag
+    return str(v)[:60]
 
 
 _BINOPS = {ast.Add: "+", ast.Sub: "-", ast.Mult: "*", ast.Div: "/", ast.Pow: "**", ast.FloorDiv: "//", ast.Mod: "%"}
